@@ -82,6 +82,7 @@ def run_cache(ctx, tr, data: bytes, omit, dep, eb, via, scn):
     inp, oute, outc = d / "in.suit", d / ("out.v2.suit" if dots else "out.suit"), d / ("cache.part.0.bin" if dots else "cache.bin")
     inp.write_bytes(data)
     core.through_link(inp, len(data) % 4 == 1)
+    inp = core.through_dotdot(inp, len(data) % 7 == 2)
     err = None
     if scn.get("stale"):
         # history: both output files exist already, left by an earlier invocation; a file still holding the marker afterwards
@@ -138,7 +139,15 @@ def run_one(ctx, tr, data: bytes, name, replace: bytes | None, tofile: bool, via
     inp.write_bytes(data)
     if replace is not None:
         rep.write_bytes(replace)
-    if scn.get("stale"):
+    alias = scn.get("alias") if (replace is not None and tofile) else None
+    if alias:
+        # a SWAP through one file: the replacement is read from the very file the extracted payload is written to - named by the
+        # same path, by another spelling of it, or through a link
+        outp = {"same": rep, "spelling": d / "sub" / ".." / "rep.bin", "link": d / "rep_link.bin"}[alias]
+        (d / "sub").mkdir(exist_ok=True)
+        if alias == "link":
+            (d / "rep_link.bin").symlink_to("rep.bin")
+    if scn.get("stale") and not alias:
         oute.write_bytes(STALE)
         if tofile:
             outp.write_bytes(STALE)
@@ -279,7 +288,8 @@ def run(ctx: core.Check):
             rep = ctx.rng.choice([None, b"", envgen.blob(33, k)])
             tofile = ctx.rng.random() < 0.6
             run_one(ctx, tr, root, nm, rep, tofile, "cli" if k % 30 == 0 else "lib",
-                    {"origin": "one", "name": nm, "env": root, "replace": rep, "tofile": tofile, "stale": k % 3 == 1})
+                    {"origin": "one", "name": nm, "env": root, "replace": rep, "tofile": tofile, "stale": k % 3 == 1,
+                     "alias": [None, "same", None, "spelling", None, "link"][k % 6]})
         if len(tr.events) > 4000:
             toolrun.report(ctx, tr, label="extract-random", keyfn=lambda b, s: f"{b['clause']}:{s.get('omit')}:{s.get('dep')}:{s.get('name')}:{len(s['env'])}")
             tr = toolrun.Trace()
